@@ -1,10 +1,10 @@
 CONSTANTS
-  Subs = {"A", "B"}
-  Buffered = {"B"}
+  Subs = {"A", "H"}
+  Buffered = {}
+  Handlers = {"H"}
   MaxPublish = 2
   MaxCalls = 5
-  Handlers = {}
-  WithDone = FALSE
+  WithDone = TRUE
 SPECIFICATION Spec
 INVARIANTS CloseNeverWedges MutexSane
 CHECK_DEADLOCK FALSE
